@@ -60,6 +60,7 @@ def sync():
         amap = _append_map()
         for t in amap:
             excl += ["--exclude", "/" + t]
+        excl += ["--exclude", "/akd_core/Cargo.toml"]
         # no -t: a file whose CONTENT differs is rewritten with the current time (cargo fingerprints by mtime, and a restored
         # file with an older mtime than the last build would otherwise leave stale object code behind); identical files are skipped
         subprocess.run(["rsync", "-rlpgoD", "--checksum", "--delete"] + excl + [REPO + "/", OVERLAY + "/"], check=True)
@@ -73,6 +74,14 @@ def sync():
                 with open(fp) as g:
                     txt += "\n// ---- appended by /verif overlay: %s\n" % os.path.relpath(fp, ROOT) + g.read()
             _write_if_changed(os.path.join(OVERLAY, t), txt)
+        # `cargo kani --features` is applied to every workspace member, so the protobuf conversions of akd_core (on in the
+        # pinned test build through akd's public_auditing) are switched on through the overlay copy's default features
+        with open(os.path.join(REPO, "akd_core", "Cargo.toml")) as f:
+            ct = f.read()
+        ct2 = ct.replace('default = ["vrf", "experimental"]', 'default = ["vrf", "experimental", "protobuf", "whatsapp_v1"]')
+        if ct2 == ct:
+            raise FileNotFoundError("akd_core/Cargo.toml: default feature line not found")
+        _write_if_changed(os.path.join(OVERLAY, "akd_core", "Cargo.toml"), ct2)
         # offline cargo config for everything built from the overlay
         _write_if_changed(os.path.join(OVERLAY, ".cargo", "config.toml"), "[net]\noffline = true\n")
         _synced = True
